@@ -11,12 +11,27 @@ use crate::stream::WebsocketStream;
 use humphrey::thread::pool::ThreadPool;
 use humphrey::App;
 
+#[cfg(not(humphrey_verif))]
 use std::collections::HashMap;
+#[cfg(humphrey_verif)]
+use humsim::collections::HashMap;
 use std::net::{SocketAddr, ToSocketAddrs};
+#[cfg(not(humphrey_verif))]
 use std::sync::mpsc::{channel, Receiver, Sender};
+#[cfg(humphrey_verif)]
+use humsim::sync::mpsc::{channel, Receiver, Sender};
+#[cfg(not(humphrey_verif))]
 use std::sync::{Arc, Mutex};
+#[cfg(humphrey_verif)]
+use humsim::sync::{Arc, Mutex};
+#[cfg(not(humphrey_verif))]
 use std::thread::{sleep, spawn};
+#[cfg(humphrey_verif)]
+use humsim::thread::{sleep, spawn};
+#[cfg(not(humphrey_verif))]
 use std::time::{Duration, Instant};
+#[cfg(humphrey_verif)]
+use humsim::time::{Duration, Instant};
 
 /// Represents an asynchronous WebSocket app.
 pub struct AsyncWebsocketApp<State, StreamState = ()>
